@@ -34,6 +34,8 @@ def payout(A):
 
 
 def run(W, chk):
+    from rules.common import borrow
+    borrow(W, chk, "C10", {"CUT-withdraw-open-only", "AGREE-twin-update"}, "the total weight rewards are divided by is updated exactly once per position change")
     A = W.run(FM, "execute", ("Claim",))
     # ---- last claimed epoch recorded, exactly until_epoch, for the sender
     lc = [e for e in A.writes() if e.extra.get("item") == "LAST_CLAIMED_EPOCH" and e.extra.get("sop") == "save"]
